@@ -80,7 +80,12 @@ func (r *c22Rec) snapshot() []PeerConnectionState {
 func TestVerifC22(t *testing.T) { //nolint:gocognit,cyclop,maintidx
 	run := kit.Start(t, "C22", "part 1: exhaustive closed×7 ICE×5 DTLS on a fresh PeerConnection vs an independent W3C transcription; "+
 		"part 2: seeded walks of (ice,dtls) updates with every store to the state bracketed (exact store order) and every handler "+
-		"invocation recorded; part 3: scripted/perturbed concurrent updaters. A case is non-trivial when the walk changes the state at least twice; distinct by the input sequence")
+		"invocation recorded; part 3: scripted/perturbed concurrent updaters; part 4: live loopback pairs whose real ICE/DTLS transports are driven into "+
+		"failed/disconnected/closed sub-states by generated faults (DTLS fingerprint/SRTP-profile/cipher/handshake-timeout failures, ICE credential/"+
+		"candidate faults, lost answer), generated follow-up events (remote close, silent remote ICE stop, local close) and generated settings "+
+		"(DisableCloseByDTLS, ICE timeouts, media mix): at every rest of the inputs ConnectionState() must equal the W3C aggregate of closed flag, "+
+		"ICEConnectionState() and DTLS State(); stores are changes and handlers never exceed changes. A case is non-trivial when the walk changes "+
+		"the state at least twice (parts 2/3) or a live transport reached failed/disconnected or the state changed three times (part 4); distinct by the input sequence")
 	defer run.Finish()
 	sched := kit.NewSched(kit.Seed())
 	defer sched.Uninstall()
@@ -298,6 +303,9 @@ func TestVerifC22(t *testing.T) { //nolint:gocognit,cyclop,maintidx
 		_ = pc.Close()
 	}
 	run.Set("hook_passes", sched.AllPasses())
+
+	// ---- part 4: live pairs with real transports (c22_live_test.go)
+	c22Live(run, sched)
 }
 
 // c22Pt is the yield point between the "unchanged?" test and the store.
